@@ -229,3 +229,87 @@ func TestVerifScenario_F6c(t *testing.T) {
 	}
 	in.mu.Unlock()
 }
+
+// ---- regression scenarios for the recursive branch of handleEvent (C19), which is not under contract
+
+func vsCollect(w *Watcher) (stop func() []Event) {
+	done := make(chan struct{})
+	out := make(chan []Event, 1)
+	go func() {
+		var evs []Event
+		for {
+			select {
+			case e, ok := <-w.Events:
+				if !ok {
+					out <- evs
+					return
+				}
+				evs = append(evs, e)
+			case <-w.Errors:
+			case <-done:
+				out <- evs
+				return
+			}
+		}
+	}()
+	return func() []Event { close(done); return <-out }
+}
+
+func vsHasCreate(evs []Event, name string) bool {
+	for _, e := range evs {
+		if e.Name == name && e.Has(Create) {
+			return true
+		}
+	}
+	return false
+}
+
+// a directory created inside a recursive tree is covered once its own Create has been delivered
+func TestVerifScenario_C19_NewDirCovered(t *testing.T) {
+	old := enableRecurse
+	enableRecurse = true
+	defer func() { enableRecurse = old }()
+	tmp := t.TempDir()
+	w := newWatcher(t)
+	defer w.Close()
+	addWatch(t, w, filepath.Join(tmp, "..."))
+	stop := vsCollect(w)
+	mkdir(t, tmp, "new")
+	time.Sleep(300 * time.Millisecond)
+	touch(t, tmp, "new", "file")
+	time.Sleep(500 * time.Millisecond)
+	evs := stop()
+	if !vsHasCreate(evs, filepath.Join(tmp, "new")) || !vsHasCreate(evs, filepath.Join(tmp, "new", "file")) {
+		t.Errorf("want Create for new and new/file, have %v", evs)
+	}
+}
+
+// a directory renamed (twice) inside the tree: it and its descendants are reported under the new location,
+// an unrelated sibling keeps its name
+func TestVerifScenario_C19_RenameTwice(t *testing.T) {
+	old := enableRecurse
+	enableRecurse = true
+	defer func() { enableRecurse = old }()
+	tmp := t.TempDir()
+	mkdirAll(t, tmp, "sub", "dir", "deep")
+	mkdir(t, tmp, "subx")
+	w := newWatcher(t)
+	defer w.Close()
+	addWatch(t, w, filepath.Join(tmp, "..."))
+	stop := vsCollect(w)
+	mv(t, filepath.Join(tmp, "sub"), filepath.Join(tmp, "one"))
+	time.Sleep(300 * time.Millisecond)
+	mv(t, filepath.Join(tmp, "one"), filepath.Join(tmp, "two"))
+	time.Sleep(300 * time.Millisecond)
+	touch(t, tmp, "two", "f1")
+	touch(t, tmp, "two", "dir", "f2")
+	touch(t, tmp, "two", "dir", "deep", "f3")
+	touch(t, tmp, "subx", "f4")
+	time.Sleep(500 * time.Millisecond)
+	evs := stop()
+	for _, want := range []string{"two/f1", "two/dir/f2", "two/dir/deep/f3", "subx/f4"} {
+		if !vsHasCreate(evs, filepath.Join(tmp, want)) {
+			t.Errorf("no Create for %s under its true current path; events: %v", want, evs)
+		}
+	}
+}
